@@ -298,6 +298,21 @@ impl<'a> Mon<'a> {
         let s = get_executable_memory_slice(a as usize, mp);
         let d = memory_read_byte(mp, addr);
         self.fetch_compared += 1;
+        // an instruction is up to three bytes long: whatever the slice offers beyond the
+        // first byte must be what the data view shows at the following addresses
+        for k in 1..s.len().min(3) {
+          if !matches!(region(addr.wrapping_add(k as u16)), Region::Rom0 | Region::RomN | Region::Wram | Region::Hram) {
+            break; // the property speaks of ROM, work RAM and high RAM only
+          }
+          let dk = memory_read_byte(mp, addr.wrapping_add(k as u16));
+          if s[k] != dk {
+            self.ctx.violation(
+              &format!("C10:{}:fetch-view!=data-view:{:?}:operand-bytes", self.cfg_name, region(addr)).to_lowercase().replace("c10", "C10"),
+              &format!("after {}: fetch slice at {:04X} offers byte +{} = {:02X}, data read at {:04X} sees {:02X}", after, addr, k, s[k], addr.wrapping_add(k as u16), dk),
+            );
+            return;
+          }
+        }
         if s.is_empty() || s[0] != d {
           self.ctx.violation(
             &format!("C10:{}:fetch-view!=data-view:{:?}", self.cfg_name, region(addr)).to_lowercase().replace("c10", "C10"),
